@@ -1,7 +1,7 @@
 (* C19 — suspend really suspends (silence and no timer faults, both machines).
    Pinned statements only. "After resume the transfer completes as C02" is not claimed here. *)
 From CFDP Require Import Base.Prelude Model.Segments Model.Timer Model.TxTypes Model.Recv Model.Send
-  Proofs.TimerP Proofs.RecvInv Proofs.SendP.
+  Proofs.TimerP Proofs.RecvInv Proofs.SendP Proofs.NoSpinP.
 
 (* Receiver: in a suspended state the loop's send arm and timeout arm are disabled
    (has_pdu_to_send = false, until_timeout = MAX) for any suspension length, and whatever
@@ -26,6 +26,14 @@ Theorem C19_paused_timers_do_not_count : forall now c, c_paused c = true ->
   snd (c_timeout_occurred now c) = c_occurred c.
 Proof. exact paused_frozen. Qed.
 
+(* a resumed send transaction starts both timers afresh: no expiration carried over, next deadline a
+   full period away - whatever was counted before the suspension and however long it lasted *)
+Theorem C19_sender_resume_fresh : forall now s, ST s -> (s_phase s = SendEof \/ s_phase s = SCancelled) ->
+  let s' := s_resume now s in
+  c_count (t_inact (s_timer s')) = 0 /\ c_count (t_ack (s_timer s')) = 0 /\
+  s_until_timeout now s' = Some (N.min (c_timeout (t_ack (s_timer s))) (c_timeout (t_inact (s_timer s)))).
+Proof. exact sender_resume_fresh. Qed.
+
 Example C19_nonvacuous :
   let cfg := mkConfig Acked false false 16 3 10000 3000 4000 [] 1 2 7 1 1 in
   let s := suspend 5 (r_new 0 cfg (Deferred 0) tt) in
@@ -35,3 +43,4 @@ Proof. vm_compute. auto. Qed.
 Print Assumptions C19_receiver_silent.
 Print Assumptions C19_sender_silent.
 Print Assumptions C19_paused_timers_do_not_count.
+Print Assumptions C19_sender_resume_fresh.
